@@ -190,9 +190,19 @@ func NewReaderCat(in io.Reader, cat Catalog) Reader {
 	if err == nil && bs[0] == 0xE0 && bs[3] == 0xEA {
 		return newBinaryReaderBuf(br, cat)
 	}
+	if err != nil && err != io.EOF {
+		// Peek reported the underlying reader's failure and forgot it. Put it back
+		// behind the bytes that did arrive, so that the traversal ends with it.
+		br = bufio.NewReader(io.MultiReader(bytes.NewReader(append([]byte{}, bs...)), failedReader{err}))
+	}
 
 	return newTextReaderBuf(br, cat)
 }
+
+// A failedReader keeps returning the error its source failed with.
+type failedReader struct{ err error }
+
+func (f failedReader) Read([]byte) (int, error) { return 0, f.err }
 
 // A reader holds common implementation stuff to both the text and binary readers.
 type reader struct {
